@@ -29,9 +29,9 @@ def job(j):
         if len(st["samples"]) < 2 and len(rec["overlay"]) >= 1 and st["n"] % 97 == 3:
             st["samples"].append({"query": doc.text, "faults": rec["overlay"], "expected_data": render.value_py(rec["data"]),
                                   "expected_error_paths": [e["path"] for e in rec["errs"]], "response": resp})
-        if mm and len(st["viol"]) < 50:
+        if mm and len(st["viol"]) < 400:
             kinds = sorted(o["o"] for _, o in rec["overlay"])
-            st["viol"].append(({"kind": "fault-mismatch", "config": cfg, "fault_kinds": kinds, "first": mm[0][:120]},
+            genrun.add_viol(st["viol"], ({"kind": "fault-mismatch", "config": cfg, "fault_kinds": kinds, "first": mm[0][:120]},
                                {"case": rec, "query": doc.text, "engine_cfg": ecfg, "mismatches": mm, "response": resp}))
 
     res = tlc.run("MC_faults.tla", cfg, on_line=on_line, workers=j.get("workers", 1), timeout=3000)
